@@ -19,6 +19,8 @@ var coreStrings = []string{
 	"\x00", "a\x00'", "\n", "'\n--", `--`, `/*`, `*/`, `#`, `;`, `$$`, `$1`, `x$1 OR 1 OR $2`, `a?b`,
 	"\xff", "\xff'", "é'日本", `"`, "`", `"'` + "`",
 	`{}`, `}}`, `sleep(3)`, `(SELECT 1)`, "ʼ＇’", ``,
+	// strings that are re-serialised into another query language on their way (Prometheus match[] -> LogQL text)
+	"\\`", "a`,env=`prod", "a`, b=`c",
 	// a choice between plain texts (regex positions may answer it without the regex engine)
 	`a|'`, `error|can't|fatal`, `x|',string,'`,
 	// accepted by identifier slots, still meaningful to SQL
